@@ -18,6 +18,7 @@ requests; `/verif/check` diffs the two answer streams.
   cfgb build|cli …                          Builder::build / CLI validation model (C16)
   wire send|recv|tcp|cksum|slice|errmap …   the channel: probe encoding, response decoding (C02 C04 C11)
   tui new|data|key|frame …                  the TUI selection state machine (stateful; C17 C18)
+  tid <pid> <i>                             the trace identifier the CLI assigns (C03)
   st cfg … / st it …                  the tracing state machine (stateful; C03 C06 C07 C08 C09)
 -/
 open TV
@@ -43,6 +44,10 @@ def step (d : DState) (line : String) : DState × String :=
   | "cfgb" :: rest => (d, (Builder.handle rest).getD "bad-op")
   | "ext" :: rest => (d, (Ext.handle rest).getD "bad-op")
   | "cksum" :: rest => (d, (Cksum.handle rest).getD "bad-op")
+  | ["tid", pid, i] =>
+    match pid.toNat?, i.toNat? with
+    | some p, some k => (d, toString (Strat.cliTraceId p k))
+    | _, _ => (d, "bad-op")
   | "wire" :: rest => (d, (Wire.handle rest).getD "bad-op")
   | "tui" :: args =>
     let (t', out) := Tui.handle d.tui args
